@@ -56,19 +56,61 @@ def tasks_def(s):
     return {t["name"]: t for t in s["def"]["tasks"]}
 
 
+def reachable(s):
+    tasks = {t["name"]: t for t in s["def"]["tasks"]}
+    targets = set(d for t in s["def"]["tasks"] for tr in t["next"] for d in tr["do"])
+    todo = [n for n in tasks if n not in targets]
+    seen = set()
+    while todo:
+        n = todo.pop()
+        if n in seen or n not in tasks:
+            continue
+        seen.add(n)
+        for tr in tasks[n]["next"]:
+            todo.extend(tr["do"])
+    return seen
+
+
 def inbound_sources(s, name):
+    """the tasks of the composed graph (reachable from a start task) with a transition to `name`"""
     srcs = set()
+    reach = reachable(s)
     for t in s["def"]["tasks"]:
+        if t["name"] not in reach:
+            continue
         for tr in t["next"]:
             if name in tr["do"]:
                 srcs.add(t["name"])
     return srcs
 
 
+def has_cycle(s):
+    tasks = {t["name"]: t for t in s["def"]["tasks"]}
+
+    def reach(a, b):
+        seen, todo = set(), [d for tr in tasks[a]["next"] for d in tr["do"]]
+        while todo:
+            n = todo.pop()
+            if n == b:
+                return True
+            if n in seen or n not in tasks:
+                continue
+            seen.add(n)
+            todo.extend(d for tr in tasks[n]["next"] for d in tr["do"])
+        return False
+
+    return any(reach(n, n) for n in tasks)
+
+
 def has_count_join_below_all(s):
+    """region of D2/D5b: a branch can arrive at a join (or with-items task) that has already
+    started on the same route: a count join with fewer than all inbound tasks, or a cycle in a
+    definition that also has a join or a with-items task"""
     for t in s["def"]["tasks"]:
-        if isinstance(t.get("join"), int) and t["join"] < len(inbound_sources(s, t["name"])):
+        if isinstance(t.get("join"), int) and not isinstance(t.get("join"), bool) and t["join"] < len(inbound_sources(s, t["name"])):
             return True
+    if has_cycle(s) and any(t.get("join") is not None or t.get("with") is not None for t in s["def"]["tasks"]):
+        return True
     return False
 
 
@@ -78,6 +120,21 @@ def last_occurrence(st):
 
 def raised(r):
     return r["res"]["raised"] if isinstance(r.get("res"), dict) and "raised" in r["res"] else None
+
+
+def d20_region(s, i):
+    """a with-items task is between items while another task reports pending/paused on its own"""
+    if not any(t.get("with") is not None for t in s["def"]["tasks"]):
+        return False
+    return any(o["op"] == "report" and o["status"] in ("pending", "paused") for o in s["ops"][:i + 1])
+
+
+def region_of(s, i):
+    if has_count_join_below_all(s):
+        return "D2"
+    if d20_region(s, i):
+        return "D20"
+    return None
 
 
 def had_rerun(s, i):
@@ -116,7 +173,7 @@ def mon_C02(s):
         if status in ("paused", "canceled") and infl:
             out.append(V("%s with actions in flight %s" % (status, sorted(map(str, infl))), i))
         if status in ("pausing", "canceling") and not infl and op["op"] in ("report", "req", "next"):
-            out.append(V("%s with nothing in flight" % status, i))
+            out.append(V("%s with nothing in flight" % status, i, region_of(s, i)))
         # failure => failed
         if prev is not None and op["op"] == "report" and not raised(r):
             before = prev["status"]
@@ -154,6 +211,9 @@ def mon_C03(s):
         infl, parked = led[i]
         if op["op"] == "next" and isinstance(r["res"], list) and not r["res"] and not infl:
             status = st["status"]
+            if parked and status in ("running", "resuming"):
+                # a paused/pending action the provider still has to resume or answer is outstanding work
+                continue
             if status in ("succeeded", "failed", "canceled"):
                 continue
             if status == "paused" and (pause_req or parked or any(t["status"] in ("paused", "pending") for t in st["sequence"])):
@@ -164,6 +224,10 @@ def mon_C03(s):
                 last_rerun = max(j for j, o in enumerate(s["ops"][:i + 1]) if o["op"] == "rerun")
                 if not any(o["op"] == "report" for o in s["ops"][last_rerun:i + 1]):
                     finding = "D8"
+            if finding is None:
+                finding = region_of(s, i)
+            if finding is None and any(o["id"] in CMDS for j in range(i) if isinstance(s["replies"][j].get("res"), list) for o in s["replies"][j]["res"]):
+                finding = "D19"
             out.append(V("quiescent (nothing in flight, nothing offered) in status %s" % status, i, finding))
     return out
 
